@@ -824,9 +824,11 @@ def run(ctx):
         raise AssertionError(f"enumerated {tot['n']} calls, expected {expected_calls}")
     from checks import c12b
     pb = c12b.run_part(ctx)
+    from checks import c12c
+    pb.update(c12c.run_part(ctx))
     return {
         **pb,
-        "evaluations": tot["n"] + pb["b_generic_calls"],
+        "evaluations": tot["n"] + pb["b_generic_calls"] + pb["c_expected_type_calls"],
         "distinct_nontrivial": tot["nontrivial"],
         "rule": "all ordered same-kind pairs (s,t) of each grid's pair universe x every acyclic partial "
                 "solution of the grid; non-trivial = s != t, an inference variable occurs in s or t, and the "
@@ -857,6 +859,9 @@ def replay(ctx, item):
     if item.get("part") == "b":
         from checks import c12b
         return c12b.replay(ctx, item)
+    if item.get("part") == "c":
+        from checks import c12c
+        return c12c.replay(ctx, item)
     s, t = _tup(item["s"]), _tup(item["t"])
     sig = tuple((b[0], _tup(b[1])) for b in item["sigma"])
     findings, info = evaluate(s, t, sig)
